@@ -118,5 +118,6 @@ pub fn check(cx: &Cx, rep: &mut Report) {
             }
         }
     }
+    super::submission_starvation("C02", cx, rep);
     rep.nontrivial = callers.len() >= 2 && kinds.len() >= 2;
 }
